@@ -3,7 +3,7 @@ CONSTANTS
   MaxBatch = 2
   MaxSegs = 3
   MaxMergeIn = 2
-  Docs = {1, 2, 4}
+  Docs = {1, 2, 9}
   Modes = {2}
   Emit = TRUE
 VIEW View
